@@ -104,6 +104,11 @@ impl PathBuf {
     pub fn push(&mut self, name: OsName) ensures final(self).comps@ == old(self).comps@.push(Comp::Normal(name.text@)) { unimplemented!() }
     #[verifier::external_body]
     pub fn as_path(&self) -> (r: &Path) ensures r.comps@ == self.comps@ { unimplemented!() }
+    /// std: the path without its final component, if there is one
+    #[verifier::external_body]
+    pub fn parent(&self) -> (r: Option<&Path>)
+        ensures match r { Some(p) => self.comps@.len() > 0 && p.comps@ == self.comps@.drop_last(), None => self.comps@.len() == 0 },
+    { unimplemented!() }
     #[verifier::external_body]
     pub fn to_string_lossy(&self) -> CowStr { unimplemented!() }
     #[verifier::external_body]
@@ -115,9 +120,13 @@ pub struct CowStr;
 impl CowStr { #[verifier::external_body] pub fn to_string(&self) -> String { unimplemented!() } }
 pub struct FsMeta;
 /// R37: `links.iter().any(|link| file_path.starts_with(link))`: some element is a component-wise prefix of the path
+pub trait HasComps { spec fn comps_view(&self) -> Seq<Comp>; }
+impl HasComps for PathBuf { open spec fn comps_view(&self) -> Seq<Comp> { self.comps@ } }
+impl HasComps for Path { open spec fn comps_view(&self) -> Seq<Comp> { self.comps@ } }
+impl HasComps for &Path { open spec fn comps_view(&self) -> Seq<Comp> { self.comps@ } }
 #[verifier::external_body]
-pub fn any_is_prefix(links: &Vec<PathBuf>, p: &PathBuf) -> (r: bool)
-    ensures r == exists|j: int| 0 <= j < links@.len() && is_prefix((#[trigger] links@[j]).comps@, p.comps@),
+pub fn any_is_prefix<P: HasComps>(links: &Vec<PathBuf>, p: &P) -> (r: bool)
+    ensures r == exists|j: int| 0 <= j < links@.len() && is_prefix((#[trigger] links@[j]).comps@, p.comps_view()),
 { unimplemented!() }
 
 // ---- std::fs with the ghost extraction context: every call REQUIRES containment ---------------------
